@@ -522,7 +522,7 @@ pub fn soup(rng: &mut Rng, n: usize) -> Vec<Op> {
     v
 }
 
-fn read_ops(spec: &ReadSpec) -> Vec<Op> {
+pub fn read_ops(spec: &ReadSpec) -> Vec<Op> {
     // allocate room, then read into it
     let mut v = vec![PUSH(spec.room as Word), ALOC()]; // [.., A]
     let mut pushed = 0;
@@ -820,6 +820,7 @@ pub fn realize(abs: &Abstract, numberings: &[Numbering]) -> Workload {
         shape: abs.shape.clone(),
         beacons: abs.beacons,
         alias_pred_hash: abs.alias_pred_hash,
+        flaky_program: None,
         stale_prelude: abs.stale_prelude && abs.entry != Entry::TwoPass,
         prefix_prelude: abs.prefix_prelude && abs.entry != Entry::TwoPass && abs.sols.len() >= 2,
     }
